@@ -30,6 +30,10 @@ class M(Model):
         final = ep.states[-1].cube if ep.states else ep.s0.cube
         return (1.0 if face_uniform(final) else 0.0), 1e-6
 
+    # ---- C11: "the episode ends when the cube is solved or at the time limit"
+    def early_end_explained(self, states, actions):
+        return face_uniform(states[-1].cube)
+
     # ---- C10
     def validate_instance(self, s0):
         out = []
